@@ -943,7 +943,9 @@ class CSA:
                 if meth == 'len':
                     return V(('unk', 'constants.len'))
                 return V(('unk', meth))
-            raise Undecided('CSA: method %s on self.%s' % (meth, fld))
+            # a field the rules do not know (new state of the compiler: a cache, a counter): what it answers is unknown; whatever
+            # is emitted from it has no provenance (O8 reports an operand that does not come from the allocator of its index space)
+            return V(('unk', '%s.%s' % (fld, meth)))
         if r[0] == 'loopiter':
             if meth in ('last', 'next_back'):
                 return [(s2, en, 'v', v) for s2, v in self.top_loop(s)]
